@@ -182,6 +182,70 @@ theorem us_rejects_uk (y m d : Nat) (hm : 1 ≤ m ∧ m ≤ 12) (hd : 12 < d) (h
 
 example : Valid 2000 1 13 ∧ (12 < 13) := by decide
 
+/-! the same four facts on the padded text `aa<sep>bb<sep>yyyy`, for every pair of separators of the `ambiguity`
+regex (`-`, `/`, `.`, blank): scanner + assumed dateutil reading + dialect decision -/
+
+theorem uk_text (y m d : Nat) (v : Valid y m d) (hy : 32 ≤ y ∧ y < 9999) (s1 s2 : Char)
+    (h1 : isDateSep s1 = true) (h2 : isDateSep s2 = true) :
+    dtCs true (pad2 d ++ s1 :: (pad2 m ++ s2 :: (pad4 y ++ []))) = some (.ok (mkDate y m d)) := by
+  have hv := v; unfold Valid at hv
+  have hb := dim_bounds y m hv.2.2.1 hv.2.2.2.1
+  unfold dtCs
+  rw [parse_numeric3 d m y s1 s2 h1 h2 (by omega) (by omega) (by omega)]
+  simp only [Option.map_some, Option.some.injEq, if_true]
+  have hu := uk_parse y m d v hy 0
+  unfold numeric3 at hu
+  rw [hu, Int.add_zero, checkRange_mkDate y m d v]
+  -- dateutil's own date is a calendar date, so `parser.parse` does not raise
+  have hvalid : ∃ t, mkDateChecked (y : Int) (duResolve (d : Int) (m : Int)).1 (duResolve (d : Int) (m : Int)).2 = .ok t := by
+    unfold duResolve
+    by_cases hd : (d : Int) > 12
+    · simp only [hd, if_true]; exact ⟨_, mkDateChecked_valid y m d v⟩
+    · simp only [hd, if_false]
+      have hb2 := dim_bounds y d (by omega) (by omega)
+      exact ⟨_, mkDateChecked_valid y d m (by unfold Valid; omega)⟩
+  obtain ⟨t0, ht0⟩ := hvalid
+  rw [ht0]; rfl
+
+theorem us_text (y m d : Nat) (v : Valid y m d) (s1 s2 : Char) (h1 : isDateSep s1 = true) (h2 : isDateSep s2 = true) :
+    dtCs false (pad2 m ++ s1 :: (pad2 d ++ s2 :: (pad4 y ++ []))) = some (.ok (mkDate y m d)) := by
+  have hv := v; unfold Valid at hv
+  have hb := dim_bounds y m hv.2.2.1 hv.2.2.2.1
+  unfold dtCs
+  rw [parse_numeric3 m d y s1 s2 h1 h2 (by omega) (by omega) (by omega)]
+  simp only [Option.map_some, Option.some.injEq, Bool.false_eq_true, if_false]
+  have hu := us_parse y m d v 0
+  unfold numeric3 at hu
+  rw [hu, Int.add_zero, checkRange_mkDate y m d v]
+  have hr : duResolve (m : Int) (d : Int) = ((m : Int), (d : Int)) := by
+    unfold duResolve; have : ¬ ((m : Int) > 12) := by omega
+    simp only [this, if_false]
+  rw [hr, mkDateChecked_valid y m d v]; rfl
+
+theorem uk_rejects_us_text (y m d : Nat) (hm : 1 ≤ m ∧ m ≤ 12) (hd : 12 < d ∧ d < 100) (hy : y < 10000) (s1 s2 : Char)
+    (h1 : isDateSep s1 = true) (h2 : isDateSep s2 = true) :
+    dtCs true (pad2 m ++ s1 :: (pad2 d ++ s2 :: (pad4 y ++ []))) = some (.error .value) := by
+  unfold dtCs
+  rw [parse_numeric3 m d y s1 s2 h1 h2 (by omega) (by omega) hy]
+  simp only [Option.map_some, Option.some.injEq, if_true]
+  have hu := uk_rejects_us y m d hm hd.1 0
+  unfold numeric3 at hu
+  rw [hu]
+  rcases mkDateChecked_cases (y : Int) (duResolve (m : Int) (d : Int)).1 (duResolve (m : Int) (d : Int)).2 with ⟨t0, h⟩ | h <;> rw [h] <;> rfl
+
+theorem us_rejects_uk_text (y m d : Nat) (hm : 1 ≤ m ∧ m ≤ 12) (hd : 12 < d ∧ d < 100) (hy : y < 10000) (s1 s2 : Char)
+    (h1 : isDateSep s1 = true) (h2 : isDateSep s2 = true) :
+    dtCs false (pad2 d ++ s1 :: (pad2 m ++ s2 :: (pad4 y ++ []))) = some (.error .value) := by
+  unfold dtCs
+  rw [parse_numeric3 d m y s1 s2 h1 h2 (by omega) (by omega) hy]
+  simp only [Option.map_some, Option.some.injEq, Bool.false_eq_true, if_false]
+  have hu := us_rejects_uk y m d hm hd.1 0
+  unfold numeric3 at hu
+  rw [hu]
+  rcases mkDateChecked_cases (y : Int) (duResolve (d : Int) (m : Int)).1 (duResolve (d : Int) (m : Int)).2 with ⟨t0, h⟩ | h <;> rw [h] <;> rfl
+
+example : String.ofList (pad2 13 ++ '.' :: (pad2 1 ++ '.' :: (pad4 2000 ++ []))) = "13.01.2000" := by decide
+
 /-- the matcher of the model is the `ambiguity` regex of the source (a changed regex breaks this theorem) -/
 theorem ambiguity_regex_is_modelled : Gen.re_ambiguity = "^[0-9]{1,2}[-/ .][0-9]{1,2}[-/ .][0-9]{2,4}" := rfl
 
